@@ -910,6 +910,7 @@ template <typename A>
 inline void
 gDeserializeObj(DeSerializeBuffer& buf,
                 std::basic_string<char, std::char_traits<char>, A>& data) {
+  data.clear(); // like every other overload, overwrite the target
   char c = buf.pop();
   while (c != '\0') {
     data.push_back(c);
